@@ -19,3 +19,5 @@ open Verif.Props.C05
 #print axioms path_lex_roundtrip_items
 #print axioms path_lex_roundtrip
 #print axioms path_parse_roundtrip
+#print axioms shorten_output_parses
+#print axioms shorten_output_parses_of_contract
